@@ -91,6 +91,8 @@ C05(e, pre, post) ==
                "C05: a failed transaction changed governance parameters")
        \cup If(pre.feeSum # post.feeSum, "C05: a fee was collected for a failed transaction")
        \cup If(HasEvm(pre) /\ HasEvm(post) /\ pre.evm # post.evm, "C05: a failed transaction changed contract code or storage")
+       \cup If("evmSynced" \in DOMAIN pre.vol /\ "evmSynced" \in DOMAIN post.vol /\ pre.vol.evmSynced # post.vol.evmSynced,
+               "C05: a failed transaction left accounts marked as copied into the EVM state (later transactions do not observe the unchanged state)")
        \cup If(pre.vol.limiter # post.vol.limiter,
                "C05: a failed transaction consumed part of the block's stake-change limits (later transactions do not observe the unchanged state)")
   ELSE {}
@@ -513,8 +515,9 @@ C15(e, pre, post, mon) ==
           closed == {id \in DOMAIN pre.props : id \notin DOMAIN post.props}
           adopted == {id \in DOMAIN post.fprops : id \notin DOMAIN pre.fprops}
           applied == {id \in DOMAIN pre.fprops : id \notin DOMAIN post.fprops}
-          \* the tallies at the close of voting: as committed by the previous block (or as of now)
-          Tal(id) == {pre.props[id]} \cup (IF id \in DOMAIN mon.propsC THEN {mon.propsC[id]} ELSE {})
+          \* the tallies when voting closed: as committed by the previous block (evidence processed at the beginning of
+          \* the settling block comes after the close and does not count)
+          Tal(id) == IF id \in DOMAIN mon.propsC THEN {mon.propsC[id]} ELSE {pre.props[id]}
       IN If(\E id \in closed : pre.props[id].end >= h, "C15: a proposal was closed while its voting window was still open")
          \cup If(\E id \in adopted : id \notin closed, "C15: a proposal was adopted that was not in voting")
          \cup If(\E id \in adopted : ~\E p \in Tal(id) : MaxVotes(p) >= (p.total * 2) \div 3,
